@@ -17,7 +17,7 @@ Print Assumptions C15_filtered_perm.
 
 Theorem C15_filtered_nodup_on_registry : forall T Exc Inc,
   NoDup (map r_code (filtered_rules registry T Exc Inc)).
-Proof. intros. apply filtered_nodup. exact registry_codes_nodup. Qed.
+Proof. exact filtered_nodup_on_registry. Qed.
 Print Assumptions C15_filtered_nodup_on_registry.
 
 (* sorted by code *)
